@@ -264,7 +264,7 @@ theorem phaseCase_noUp (c : Cfg) (s : St) (h6 : s.phase ≠ 6) :
   · rw [pc11 c s h]; split
     · exact none_ _ (deliver_trace c s)
     · exact via _ (none_ _ (deliver_trace c s))
-  · rw [pc12 c s h]; exact via _ (one _ (.spass s.scursor (runSend c.send s.toFState).2) (by simp [sendPass, emit, liftF]) rfl)
+  · rw [pc12 c s h]; exact via _ (one _ (.spass s.scursor (runSend c.send s.toFState).2) (by simp [sendPassE, sendPass, emit, liftF]) rfl)
   · rw [pc13 c s h]; split
     · split
       · exact none_ _ (afterPEd_true_frame c s).1
@@ -336,6 +336,17 @@ theorem step_Cinv (c : Cfg) (s : St) (hg : Ginv c s) (hj : Jinv s) (ho : Oinv c 
   · exact hc
   · rename_i hnh
     have hnh : s.halted = false := by simpa using hnh
+    split
+    · -- [proxy8] what follows the exhausted task loop: no filter runs, the worker stays or goes on to Oneway / UpFilter
+      obtain ⟨⟨ft, fc, _, fp, _, _, _⟩, hph⟩ := finishStart_form c s hg hnh
+      refine ⟨by rw [ft]; exact hc.head, by rw [ft]; exact hc.chain, by rw [ft]; exact hc.tail,
+        by rw [ft, fc, fp]; exact hc.curp, ?_, by rw [ft]; exact hc.fwd⟩
+      intro hnh' hle
+      rw [ft]
+      rcases hph with h | ⟨_, h⟩ | h
+      · rw [h] at hnh'; cases hnh'
+      · rw [h] at hle ⊢; exact hc.gap hnh hle
+      · omega
     split
     · -- the loop of `receive` ran out: the task returns
       refine ⟨?_, ?_, ?_, ?_, ?_, ?_⟩
